@@ -508,16 +508,18 @@ def nextState (st : PState) (ty : OpType) (name : Bytes) : Option PState :=
 
 def isNumObj : Obj → Bool | .int _ => true | .real _ _ => true | _ => false
 
-/-- the `for a in args.iter()` loop of the `Tj ' "` arm (lines 350-375). -/
-def showArgs (name : Bytes) : List Obj → Res (List Tok)
-  | [] => .ok []
-  | a :: rest =>
-    match a with
-    | .str v =>
-      match showArgs name rest with
-      | .ok ts => .ok ((if name != opTj then [Tok.space] else []) ++ Tok.raw v :: ts)
+/-- the `for (a, t) in args.iter().zip(op_args.iter())` loop of the `Tj ' "` arm: every operand
+    is checked against the kind the operator table declares for its position. -/
+def showArgs (name : Bytes) : List Obj → List ArgType → Res (List Tok)
+  | a :: rest, t :: ts =>
+    match a, t with
+    | .str v, .string =>
+      match showArgs name rest ts with
+      | .ok toks => .ok ((if name != opTj then [Tok.space] else []) ++ Tok.raw v :: toks)
       | .err k => .err k | .panic p => .panic p
-    | o => if isNumObj o && name == opDQuote then showArgs name rest else .err .guard
+    | o, .number => if isNumObj o then showArgs name rest ts else .err .guard
+    | _, _ => .err .guard
+  | _, _ => .ok []
 
 /-- the `for o in array.objs()` loop of the `TJ` arm (lines 380-405). -/
 def showArray : List Obj → Res (List Tok)
@@ -532,10 +534,11 @@ def handleOp (ty : OpType) (name : Bytes) (opArgs : List ArgType) (args : List O
     Res (List Tok × Nat) :=
   if ty == .textShow && (name == opTj || name == opQuote || name == opDQuote) then
     if args.length != opArgs.length then .err .guard
-    else match showArgs name args with
+    else match showArgs name args opArgs with
       | .ok ts => .ok (ts, compat) | .err k => .err k | .panic p => .panic p
   else if ty == .textShow && name == opTJ then
-    match args.getLast? with
+    if args.length != opArgs.length then .err .guard
+    else match args.getLast? with
     | none => .ok ([], compat)
     | some (.arr l) =>
       match showArray l with
@@ -554,6 +557,9 @@ def extractLoop (maxDepth : Nat) : Nat → PState → Nat → List Obj → Bytes
   | 0, _, _, _, _ => .panic "fuel"
   | fuel + 1, st, compat, args, s0 =>
     let s := skipWs s0
+    -- the stream may end at an operator boundary (no pending operands)
+    if s.isEmpty && args.isEmpty then .ok []
+    else
     match csObjP maxDepth (2 * s.length + 2) s with
     | .err _ => .err .guard
     | .panic p => .panic p
